@@ -407,7 +407,8 @@ theorem doc_inline_depth (cfg : DocCfg) (src : List Char) (t : Node) (h : parseD
     wrappers not counted, is `≤ 2 · max_nesting + 2` (`1` when `max_nesting = 0`) — a function of the
     limit alone.  (Not the sum `(N + 2) + (N + 1)` of 1 and 2: the deepest block chain ends in an
     item without content.)  Reached for every small `N` tried (`depth_tight`); with the wrappers
-    counted the bound FAILS (`emph_exceeds`: the known finding). -/
+    counted the bound `2 N + 2` fails (`emph_exceeds`), by an amount that `max_nesting` bounds
+    (`emph_limited`, `Props/EmphDepth.lean`). -/
 theorem doc_depth_bounded (cfg : DocCfg) (src : List Char) (t : Node) (h : parseDoc cfg src = .ok t) :
     depthNoEmph t ≤ (if cfg.maxNesting = 0 then 1 else 2 * cfg.maxNesting + 2) := by
   obtain ⟨root, refs, hb, hle⟩ := parseDoc_wdepth 1 1 (cfg.maxNesting + 1) (inlineBound_one cfg) h
@@ -460,10 +461,23 @@ example : measures (parseDoc (exCfg false 2) ">>![![![a](b)](c)](d)".toList) = s
     measures (parseDoc (exCfg false 1) ">>![![![a](b)](c)](d)".toList) = some (2, 0, 2, 2) := by
   decide +kernel
 
-/-- **the known finding** (`emph-depth`): emphasis wrappers are not bounded by the limit.  With
-    `max_nesting = 1` the bound without wrappers is 4 and holds, the plain depth is 7. -/
+/-- **the former known finding** (`emph-depth`), after the `fix:` that limits emphasis nesting by
+    `max_nesting` (`scan_and_match_delimiters`: `state.level + inner_depth >= max_nesting` ⇒ break):
+    with `max_nesting = 1` this document used to reach plain depth 7 (four nested wrappers); now one
+    wrapper level fits (`room = max_nesting - level = 1`) and the plain depth is 4. -/
+theorem emph_limited :
+    measures (parseDoc (exCfg false 1) "*a **b _c ~~d~~_***".toList) = some (2, 1, 3, 4) ∧
+    measures (parseDoc (exCfg false 2) "*a **b _c ~~d~~_***".toList) = some (2, 1, 3, 5) := by
+  decide +kernel
+
+/-- with the wrappers counted the bound `2 N + 2` still FAILS — but by a bounded amount: per level
+    `l` at most `max_nesting - l` wrappers are nested (`Props/EmphDepth.lean`:
+    `inline_emph_depth_bounded`, `inline_tree_depth_bounded`: the inline part of a tree has height
+    `≤ 1 + N (N + 3) / 2`).  `N = 1`: root / paragraph / em / link / text = 5 > 4;
+    `N = 2`: root / quote / paragraph / em / em / image / em / link / text = 9 > 6. -/
 theorem emph_exceeds :
-    measures (parseDoc (exCfg false 1) "*a **b _c ~~d~~_***".toList) = some (2, 1, 3, 7) := by
+    measures (parseDoc (exCfg false 1) "*[a](b)*".toList) = some (2, 2, 4, 5) ∧
+    measures (parseDoc (exCfg false 2) ">*a *b ![*c [t](u) c*](i) b* a*".toList) = some (3, 3, 6, 9) := by
   decide +kernel
 
 /-- the hypotheses of the three theorems are satisfiable -/
